@@ -133,6 +133,10 @@ func RandValue(r *rand.Rand, in model.Input, addrs [][]byte) model.AV {
 		el := in
 		el.Type = t[:i]
 		n := 1 + r.IntN(3)
+		if r.IntN(12) == 0 {
+			// now and then a long array (more rows per log than any small constant)
+			n = 9 + r.IntN(40)
+		}
 		if inner != "" {
 			fmt.Sscanf(inner, "%d", &n)
 		}
